@@ -268,6 +268,34 @@ pub fn gen(rng: &mut Rng, view: &J, prof: &Profile) -> J {
     let o = if nobjs > 1 && rng.chance(2, 3) { &objs[1 + rng.below(nobjs - 1)] } else { &objs[0] };
     let ty = o["ty"].as_str().unwrap_or("map");
     let id = o["id"].clone();
+    if prof.invalid_pct > 0 && rng.chance(prof.invalid_pct, 100) {
+        // deliberately invalid (or boundary) arguments
+        let len = o["len"].as_u64().unwrap_or(0) as usize;
+        let bad_idx = *rng.pick(&[len, len + 1, len + 7, 1_000_000usize]);
+        let v = rand_scalar(rng, prof);
+        return match (ty, rng.below(9)) {
+            (_, 0) => json!({"fn":"put","obj":[99, 1],"key":"k1","val":v}),
+            ("map", 1) | ("table", 1) => json!({"fn":"put","obj":id,"idx":0,"val":v}),
+            ("map", 2) | ("table", 2) => json!({"fn":"insert","obj":id,"idx":0,"val":v}),
+            ("map", 3) | ("table", 3) => json!({"fn":"increment","obj":id,"key":KEYS[rng.below(3)],"by":1}),
+            ("map", 4) | ("table", 4) => json!({"fn":"splice","obj":id,"idx":0,"del":0,"vals":[v]}),
+            ("map", _) | ("table", _) => json!({"fn":"delete","obj":id,"key":"nokey"}),
+            ("list", 1) => json!({"fn":"put","obj":id,"key":"k1","val":v}),
+            ("list", 2) => json!({"fn":"insert","obj":id,"idx":bad_idx.max(len + 1),"val":v}),
+            ("list", 3) => json!({"fn":"put","obj":id,"idx":bad_idx,"val":v}),
+            ("list", 4) => json!({"fn":"delete","obj":id,"idx":bad_idx}),
+            ("list", 5) => json!({"fn":"increment","obj":id,"idx":rng.below(len + 1),"by":1}),
+            ("list", 6) => json!({"fn":"splice","obj":id,"idx":rng.below(len + 1),"del":-(1 + rng.below(len + 2) as i64),"vals":[v]}),
+            ("list", 7) => json!({"fn":"splice","obj":id,"idx":rng.below(len + 3),"del":(rng.below(len + 3)) as i64,"vals":[]}),
+            ("list", _) => json!({"fn":"splice","obj":id,"idx":len + 1 + rng.below(3),"del":0,"vals":[v]}),
+            (_, 1) => json!({"fn":"splice_text","obj":id,"idx":len + 1 + rng.below(3),"del":0,"toks":["a"]}),
+            (_, 2) => json!({"fn":"splice_text","obj":id,"idx":rng.below(len + 1),"del":-(1 + rng.below(len + 2) as i64),"toks":["b"]}),
+            (_, 3) => json!({"fn":"splice_text","obj":id,"idx":rng.below(len + 3),"del":(rng.below(len + 3)) as i64,"toks":[]}),
+            (_, 4) => json!({"fn":"put","obj":id,"key":"k1","val":v}),
+            (_, 5) => json!({"fn":"delete","obj":id,"idx":bad_idx}),
+            (_, _) => json!({"fn":"increment","obj":id,"idx":rng.below(len + 1),"by":1}),
+        };
+    }
     let can_make = prof.nested && nobjs < prof.max_objs;
     match ty {
         "map" | "table" => {
